@@ -478,8 +478,22 @@ def sat_merge(ctx, facts):
     if not sat:
         return
     bb, t = sat[0]
-    a2, a3 = str(flow.expr_of(b, t["args"][2], max_depth=20)), str(flow.expr_of(b, t["args"][3], max_depth=20))
-    oko = "values" in a2 and "values" in a3 and a2 != a3
+    # positional: the operands are resolved to the merge fn's own parameters - the `values` field of self (parameter 1)
+    # and the `values` field of the other histogram (parameter 4) - whatever the captures are called
+    from rules.C06 import upvar_sources
+    par = facts.bodies.get(root)
+    ups = upvar_sources(facts, par, b.path) if par is not None and par is not b else {}
+
+    def operand(op):
+        e = flow.expr_of(b, op, max_depth=20)
+        while e[0] in ("ref", "call") and (e[0] == "ref" or (re.search(r"(Clone::clone|Deref::deref|Borrow::borrow)$", e[1]) and e[2])):
+            e = e[1] if e[0] == "ref" else e[2][0]
+        if e[0] == "upvar":
+            base = ups.get(e[1], ("?",))
+            return tuple(base) + tuple(e[2:])
+        return e
+    o2, o3 = operand(t["args"][2]), operand(t["args"][3])
+    oko = o2[0] == "arg" and o3[0] == "arg" and o2[-1] == "values" and o3[-1] == "values" and {o2[1], o3[1]} == {1, 4}
     ctx.ob("SAT-merge", "operands", oko, "self.values + other.values" if oko else "the merge does not add the two histograms' value vectors", site_of(b, bb))
     okw = False
     for wbb, idx, st in b.iter_assigns():
